@@ -44,6 +44,7 @@ type Target struct {
 	Env     map[string]EnvSpec `json:"env,omitempty"`
 	Skip    []string           `json:"skip,omitempty"`   // statements whose text starts with one of these are ignored (logging, hashing, error plumbing)
 	Option  bool               `json:"option,omitempty"` // fragment: a bare return inside it yields None, falling through yields Some outputs
+	FuncLit string             `json:"funclit,omitempty"` // translate the function literal assigned to this variable inside Func (as if it were a function)
 	Body    bool               `json:"body,omitempty"`   // fragment = the whole body of a function without result (Free = variables live on entry)
 	Marks   map[string]string  `json:"marks,omitempty"`  // "f" -> v: a statement `go f(...)` / `f(...)` is the assignment v = true (v a Free bool): which side effects a path triggers
 	IfCond  string             `json:"ifcond,omitempty"` // translate the condition of the (first) if statement of the function whose condition reads exactly so
@@ -71,6 +72,8 @@ type gen struct {
 	defs    map[string][]param // generated definitions so far -> parameter list
 	retType string
 	consts  map[string]string // package-level integer constants
+	file    *ast.File
+	repo    string
 }
 
 // failure of one target: recovered per group, so that a construct gotrans cannot translate (or a function
@@ -194,6 +197,11 @@ func (g *gen) expr(e ast.Expr) (string, string) {
 				case "Minute":
 					return "60000000000", "i64"
 				}
+			}
+		}
+		if id, ok := x.X.(*ast.Ident); ok {
+			if v, ok := g.extConst(id.Name, x.Sel.Name); ok {
+				return v, "untyped"
 			}
 		}
 		fail(pos, "selector %s not supported", g.text(e))
@@ -812,6 +820,101 @@ func (g *gen) findFragment(list []ast.Stmt, from string) []ast.Stmt {
 	return nil
 }
 
+// extConst: the value of an integer constant (literal or iota block) of an imported package of a module that
+// the repository's go.mod requires, read from the module cache; pkg is the import's name in the current file
+var extCache = map[string]map[string]string{}
+
+func (g *gen) extConst(pkg, name string) (string, bool) {
+	if g.file == nil {
+		return "", false
+	}
+	ipath := ""
+	for _, im := range g.file.Imports {
+		p := strings.Trim(im.Path.Value, "\"")
+		n := filepath.Base(p)
+		if im.Name != nil {
+			n = im.Name.Name
+		}
+		if n == pkg {
+			ipath = p
+		}
+	}
+	if ipath == "" {
+		return "", false
+	}
+	if m, ok := extCache[ipath]; ok {
+		v, ok := m[name]
+		return v, ok
+	}
+	m := map[string]string{}
+	extCache[ipath] = m
+	gomod, err := os.ReadFile(filepath.Join(g.repo, "go.mod"))
+	if err != nil {
+		return "", false
+	}
+	dir := ""
+	for _, l := range strings.Split(string(gomod), "\n") {
+		f := strings.Fields(l)
+		if len(f) >= 2 && f[0] == "require" {
+			f = f[1:]
+		}
+		if len(f) >= 2 && strings.HasPrefix(f[1], "v") && (ipath == f[0] || strings.HasPrefix(ipath, f[0]+"/")) {
+			cache := os.Getenv("GOMODCACHE")
+			if cache == "" {
+				home, _ := os.UserHomeDir()
+				cache = filepath.Join(home, "go", "pkg", "mod")
+			}
+			dir = filepath.Join(cache, f[0]+"@"+f[1], strings.TrimPrefix(ipath, f[0]))
+		}
+	}
+	if dir == "" {
+		return "", false
+	}
+	ents, _ := os.ReadDir(dir)
+	for _, e := range ents {
+		if !strings.HasSuffix(e.Name(), ".go") || strings.HasSuffix(e.Name(), "_test.go") {
+			continue
+		}
+		pf, err := parser.ParseFile(token.NewFileSet(), filepath.Join(dir, e.Name()), nil, 0)
+		if err != nil {
+			continue
+		}
+		for _, d := range pf.Decls {
+			gd, ok := d.(*ast.GenDecl)
+			if !ok || gd.Tok != token.CONST {
+				continue
+			}
+			isIota := false
+			for i, sp := range gd.Specs {
+				vs := sp.(*ast.ValueSpec)
+				if len(vs.Names) != 1 {
+					isIota = false
+					continue
+				}
+				if len(vs.Values) == 1 {
+					isIota = false
+					if id, ok := vs.Values[0].(*ast.Ident); ok && id.Name == "iota" {
+						isIota = true
+					} else if lit, ok := vs.Values[0].(*ast.BasicLit); ok && lit.Kind == token.INT {
+						m[vs.Names[0].Name] = strings.ReplaceAll(lit.Value, "_", "")
+						continue
+					} else {
+						continue
+					}
+				} else if len(vs.Values) != 0 {
+					isIota = false
+					continue
+				}
+				if isIota {
+					m[vs.Names[0].Name] = fmt.Sprint(i)
+				}
+			}
+		}
+	}
+	v, ok := m[name]
+	return v, ok
+}
+
 // reassigned: some function of the package assigns (or takes the address of, or ++/--) the package-level name
 func reassigned(files []*ast.File, name string) bool {
 	found := false
@@ -927,10 +1030,25 @@ func main() {
 			if fd == nil {
 				panic(failure{fmt.Sprintf("%s: function %s (receiver %q) not found", t.File, t.Func, t.Recv)})
 			}
+			if t.FuncLit != "" {
+				var fl *ast.FuncLit
+				ast.Inspect(fd.Body, func(n ast.Node) bool {
+					if as, ok := n.(*ast.AssignStmt); ok && fl == nil && len(as.Lhs) == 1 && len(as.Rhs) == 1 {
+						if id, ok := as.Lhs[0].(*ast.Ident); ok && id.Name == t.FuncLit {
+							fl, _ = as.Rhs[0].(*ast.FuncLit)
+						}
+					}
+					return fl == nil
+				})
+				if fl == nil {
+					panic(failure{fmt.Sprintf("%s: no function literal assigned to %s in %s", t.File, t.FuncLit, t.Func)})
+				}
+				fd = &ast.FuncDecl{Name: &ast.Ident{Name: t.Func + "." + t.FuncLit, NamePos: fl.Pos()}, Type: fl.Type, Body: fl.Body}
+			}
 			curMarks = t.Marks
 			curFset = fset
-			g := &gen{fset: fset, cfg: &cfg, t: t, fields: map[string]string{}, vars: map[string]string{}, usedF: map[string]bool{}, envP: map[string]string{}, defs: defs}
-			if fd.Recv != nil && len(fd.Recv.List[0].Names) == 1 {
+			g := &gen{fset: fset, cfg: &cfg, t: t, fields: map[string]string{}, vars: map[string]string{}, usedF: map[string]bool{}, envP: map[string]string{}, defs: defs, file: f, repo: *repo}
+			if fd.Recv != nil && len(fd.Recv.List[0].Names) == 1 && t.FuncLit == "" {
 				g.recv = fd.Recv.List[0].Names[0].Name
 			}
 			g.consts = map[string]string{}
